@@ -2,7 +2,7 @@
 //! predictions = inverse link of the linear predictor and inside the link's range, rejection of
 //! targets outside the distribution's support.
 
-use crate::model::{self, Lk, Tweedie, Verdict};
+use crate::model::{self, Lk, Objective, Tweedie, Verdict};
 use linfa::traits::{Fit, Predict};
 use linfa::DatasetBase;
 use linfa_linear::{LinearError, Link, TweedieRegressor};
@@ -44,7 +44,15 @@ pub struct GlmCase {
     pub zeros: Vec<u16>,
     /// (sample, kind): kind 0 = negative target, kind 1 = zero target — the rejection class
     pub reject: Option<(u16, u8)>,
+    /// index into YSCALE_EXP: the targets are multiplied by 10^s (absent in older replay files = 0 = unscaled)
+    #[serde(default)]
+    pub yscale_ix: u8,
 }
+
+/// decimal exponent of the target scale; index 0 must stay 0. "Targets in range" includes tiny and huge positive
+/// targets: with the log link the scale moves into the intercept (s ln 10), with the identity link into all
+/// coefficients; the logit link (means in (0,1)) only takes the downward scales.
+pub const YSCALE_EXP: [i32; 12] = [0, 0, 0, 0, 0, -9, -8, -8, -6, -3, 3, 6];
 
 pub fn case_strategy(_tier: Tier) -> impl Strategy<Value = GlmCase> {
     (1usize..=P_MAX)
@@ -65,11 +73,12 @@ pub fn case_strategy(_tier: Tier) -> impl Strategy<Value = GlmCase> {
                     0u8..2,
                     proptest::collection::vec(any::<u16>(), 0..=3),
                     proptest::option::weighted(0.12, (any::<u16>(), 0u8..2)),
+                    0u8..12,
                 ),
             )
         })
         .prop_map(
-            |((rows, w, power_ix, link_ix, alpha_ix), (intercept, tight_tol, noise_ix, scale_ix, zeros, reject))| GlmCase {
+            |((rows, w, power_ix, link_ix, alpha_ix), (intercept, tight_tol, noise_ix, scale_ix, zeros, reject, yscale_ix))| GlmCase {
                 rows,
                 w,
                 power_ix,
@@ -81,6 +90,7 @@ pub fn case_strategy(_tier: Tier) -> impl Strategy<Value = GlmCase> {
                 scale_ix,
                 zeros,
                 reject,
+                yscale_ix,
             },
         )
 }
@@ -106,6 +116,8 @@ pub struct Derived {
     pub planted: Option<&'static str>,
     /// how many times the features were halved to keep the solver's first trial points inside the domain
     pub shrunk_steps: usize,
+    /// decimal exponent of the target scale actually applied
+    pub yexp: i32,
 }
 
 pub fn derive(case: &GlmCase) -> Option<Derived> {
@@ -148,6 +160,14 @@ pub fn derive(case: &GlmCase) -> Option<Derived> {
             Lk::Logit => (model::sigmoid(lin) * (sigma * e).exp()).clamp(0.02, 0.98),
         };
     }
+    let mut yexp = YSCALE_EXP[(case.yscale_ix as usize).min(YSCALE_EXP.len() - 1)];
+    if link == Lk::Logit && yexp > 0 {
+        yexp = 0;
+    }
+    let c = 10f64.powi(yexp);
+    for v in y.iter_mut() {
+        *v *= c;
+    }
     let mut zero_targets = 0;
     if (1.0..2.0).contains(&power) {
         for z in &case.zeros {
@@ -162,7 +182,7 @@ pub fn derive(case: &GlmCase) -> Option<Derived> {
     if let Some((s, kind)) = case.reject {
         let i = idx(s, n);
         if power >= 1.0 && kind == 0 {
-            y[i] = -(y[i].abs()) - 0.5;
+            y[i] = -(y[i].abs()) - 0.5 * c;
             planted = Some("negative");
         } else if power >= 2.0 && kind == 1 {
             y[i] = 0.0;
@@ -177,16 +197,18 @@ pub fn derive(case: &GlmCase) -> Option<Derived> {
     let mut shrunk_steps = 0usize;
     let x = loop {
         let x: Vec<Vec<f64>> = case.rows.iter().map(|r| r.x[..p].iter().map(|v| v * scale * shrink).collect()).collect();
-        if planted.is_some() || first_steps_ok(&x, &y, p, intercept, power, link) {
+        // the cap on the first move of the linear predictor is in units of the mean for the identity link
+        let cap = if link == Lk::Identity { FIRST_STEP_CAP * c } else { FIRST_STEP_CAP };
+        if planted.is_some() || first_steps_ok(&x, &y, p, intercept, power, link, cap) {
             break x;
         }
         shrink *= 0.5;
         shrunk_steps += 1;
-        if shrunk_steps > 16 {
+        if shrunk_steps > 60 {
             return None;
         }
     };
-    Some(Derived { p, x, y, power, link, intercept, zero_targets, planted, shrunk_steps })
+    Some(Derived { p, x, y, power, link, intercept, zero_targets, planted, shrunk_steps, yexp })
 }
 
 pub const FIRST_STEP_CAP: f64 = 6.0;
@@ -205,7 +227,7 @@ pub fn start_point(y: &[f64], p: usize, intercept: bool, link: Lk) -> Vec<f64> {
     t
 }
 
-fn first_steps_ok(x: &[Vec<f64>], y: &[f64], p: usize, intercept: bool, power: f64, link: Lk) -> bool {
+fn first_steps_ok(x: &[Vec<f64>], y: &[f64], p: usize, intercept: bool, power: f64, link: Lk, cap: f64) -> bool {
     use crate::model::Objective;
     let obj = Tweedie { x, y, p, intercept, alpha: 0.0, power, link };
     let t0 = start_point(y, p, intercept, link);
@@ -223,7 +245,7 @@ fn first_steps_ok(x: &[Vec<f64>], y: &[f64], p: usize, intercept: bool, power: f
         }
     }
     let t1: Vec<f64> = t0.iter().zip(&g).map(|(a, b)| a - b).collect();
-    (0..x.len()).all(|i| (obj.eta(&t1, i) - obj.eta(&t0, i)).abs() <= FIRST_STEP_CAP)
+    (0..x.len()).all(|i| (obj.eta(&t1, i) - obj.eta(&t0, i)).abs() <= cap)
 }
 
 fn to_array2(x: &[Vec<f64>], p: usize) -> Array2<f64> {
@@ -249,6 +271,15 @@ pub fn check(case: &GlmCase, obs: &mut Obs) {
         Lk::Identity => "link_identity",
         Lk::Log => "link_log",
         Lk::Logit => "link_logit",
+    });
+    obs.class(match d.yexp {
+        0 => "target_scale_1",
+        -9 => "target_scale_1e-9",
+        -8 => "target_scale_1e-8",
+        -6 => "target_scale_1e-6",
+        -3 => "target_scale_1e-3",
+        3 => "target_scale_1e3",
+        _ => "target_scale_1e6",
     });
     obs.class_if(d.intercept, "intercept");
     obs.class_if(!d.intercept, "no_intercept");
@@ -344,7 +375,16 @@ pub fn check(case: &GlmCase, obs: &mut Obs) {
             obs.class("glm_stopped_by_max_iterations");
             judged = false;
         }
-        Verdict::Stationary => obs.class(model::grad_class(j.gnorm, tol)),
+        Verdict::Stationary => {
+            obs.class(model::grad_class(j.gnorm, tol));
+            if d.link == Lk::Log && d.yexp <= -6 {
+                // fitted means far below 1e-7 (where a lower bound on exp() in the chain rule would bite)
+                obs.class("tiny_targets_log_link_stationary");
+                let t0 = start_point(&d.y, d.p, d.intercept, d.link);
+                let moved = theta.len() != t0.len() || theta.iter().zip(&t0).any(|(a, c)| a != c);
+                obs.class_if(moved, "tiny_targets_log_link_solver_moved");
+            }
+        }
         Verdict::Stalled => {
             obs.class("glm_stalled_at_cost_resolution");
             judged = false;
@@ -357,7 +397,16 @@ pub fn check(case: &GlmCase, obs: &mut Obs) {
             } else {
                 obs.fail(
                     "glm:undefined-at-returned-point",
-                    format!("fit returned Ok with coef {:?}, intercept {} where the objective is not defined (power {}, link {:?})", w, b, d.power, d.link),
+                    format!(
+                        "fit returned Ok with coef {:?}, intercept {} where the objective is not defined (power {}, link {:?}); own F = {:e}, |grad| = {:e}, curvature = {:e}",
+                        w,
+                        b,
+                        d.power,
+                        d.link,
+                        obj.value(&theta),
+                        vengine::num::norm2(&obj.grad(&theta)),
+                        obj.curv(&theta)
+                    ),
                 );
             }
         }
